@@ -51,3 +51,16 @@ Proof. intros. split; reflexivity. Qed.
 
 Example C12_nonvacuous : Inv ex3 /\ len ex3 = 3 /\ cap ex3 = 4.
 Proof. split; [exact ex3_inv|]. split; [exact (proj1 ex3_shape)|exact (proj1 (proj2 ex3_shape))]. Qed.
+
+(** Filling by create alone from capacity 0: 24 growths, strictly increasing, the last one landing
+    exactly on the limit, where growth is refused (and create panics, [push_overflow]).  The check
+    compares this sequence with the capacities the implementation actually passes through while it
+    creates 16,777,216 entities. *)
+Theorem C12_growth_reaches_the_limit :
+  let g := growth_seq 64 0 in
+  length g = 24 /\ Forall (fun p => (fst p < snd p)%N) g /\ (snd <$> g) !! 23 = Some MAX_DATA_CAPACITY /\
+  grow_refused MAX_DATA_CAPACITY = true /\ (forall c, (c < MAX_DATA_CAPACITY)%N -> grow_refused c = false).
+Proof.
+  split_and!; [reflexivity|by vm_compute; repeat constructor|reflexivity|reflexivity|].
+  intros c Hc. unfold grow_refused. apply N.leb_gt. exact Hc.
+Qed.
